@@ -32,6 +32,33 @@ extern void __real__exit(int) __attribute__((noreturn));
 extern ssize_t __real_write(int, const void *, size_t);
 extern char **environ;
 
+/* --cxx: the same scripts through reproc++ (harness/cxx/shim.cpp) */
+static int opt_cxx;
+#ifdef WITH_CXX
+extern void *cxx_new(void); extern void cxx_destroy(void *);
+extern int cxx_start(void *, const char *const *, reproc_options), cxx_pid(void *), cxx_wait(void *, int), cxx_terminate(void *), cxx_kill(void *);
+extern int cxx_stop(void *, reproc_stop_actions), cxx_close(void *, int), cxx_read(void *, int, uint8_t *, size_t), cxx_write(void *, const uint8_t *, size_t);
+extern int cxx_poll1(void *, int, int, int *), cxx_drain(void *, reproc_sink, reproc_sink), cxx_run(const char *const *, reproc_options, reproc_sink, reproc_sink);
+extern int cxx_drain_string(void *, char **, int, reproc_sink);
+#else
+#define cxx_new() NULL
+#define cxx_destroy(p) ((void) 0)
+#define cxx_start(p, a, o) 0
+#define cxx_pid(p) 0
+#define cxx_wait(p, t) 0
+#define cxx_terminate(p) 0
+#define cxx_kill(p) 0
+#define cxx_stop(p, s) 0
+#define cxx_close(p, s) 0
+#define cxx_read(p, s, b, n) 0
+#define cxx_write(p, b, n) 0
+#define cxx_poll1(p, i, t, e) 0
+#define cxx_drain(p, o, e) 0
+#define cxx_run(a, o, x, y) 0
+#define cxx_drain_string(p, s, u, o) 0
+#endif
+static void skip_script(const char *why);
+
 #define MAXH 5
 static reproc_t *H[MAXH];
 static int Hpid[MAXH];          /* sim pid of the child started for handle h (0 = none) */
@@ -625,6 +652,18 @@ static long do_call(jv *c, jv **extra)
   reproc_t *p = (h > 0 && h < MAXH) ? H[h] : NULL;
   long r = 0;
   *extra = NULL;
+  if (opt_cxx) {
+    if ((h == 0 || !p) && strcmp(fn, "new") && strcmp(fn, "poll") && strcmp(fn, "run") && strcmp(fn, "sleep")) skip_script("NULL handle has no C++ counterpart");
+    if (j_int(c, "nullbuf", 0)) skip_script("NULL buffer");
+    jv *oo = j_get(c, "o");
+    if (oo && j_int(oo, "fork", 0)) skip_script("fork mode is exercised through the C API");
+    jv *sk_ = j_get(c, "sinks");
+    if (sk_) for (int i = 0; i < sk_->n; i++) {
+      const char *kk = sk_->a[i]->a[0]->s;
+      if (!strcmp(kk, "nofn") || !strcmp(kk, "str")) skip_script("sink form without a C++ counterpart");
+      if (sk_->a[i]->n > 2 && sk_->a[i]->a[2]->i > 0) skip_script("positive sink results are not error codes");
+    }
+  }
   K->cur_handle = h;
   K->blocks = 0; K->blocked_ticks = 0;
   rbad = 0;
@@ -632,7 +671,7 @@ static long do_call(jv *c, jv **extra)
   t_call = K->now;
 
   if (!strcmp(fn, "new")) {
-    K->in_api = 1; H[h] = reproc_new(); K->in_api = 0;
+    K->in_api = 1; H[h] = opt_cxx ? (reproc_t *) cxx_new() : reproc_new(); K->in_api = 0;
     return H[h] != NULL;
   }
   if (!strcmp(fn, "start")) {
@@ -649,7 +688,7 @@ static long do_call(jv *c, jv **extra)
     }
     int nproc_before = K->nextpid;
     K->in_api = 1;
-    r = reproc_start(p, argv, op);
+    r = opt_cxx ? cxx_start(p, argv, op) : reproc_start(p, argv, op);
     K->in_api = 0;
     if (sk_cur != 0) fork_child_epilogue(h, r); /* forked child in fork mode: never returns */
     K->nfault = 0;
@@ -683,25 +722,26 @@ static long do_call(jv *c, jv **extra)
     return r;
   }
   if (!strcmp(fn, "pid")) {
-    K->in_api = 1; r = reproc_pid(p); K->in_api = 0;
+    K->in_api = 1; r = opt_cxx ? cxx_pid(p) : reproc_pid(p); K->in_api = 0;
     if (r > 0) r = (h > 0 && r == Hpid[h]) ? 1 : 2;
     return r;
   }
-  if (!strcmp(fn, "wait")) { K->in_api = 1; r = reproc_wait(p, (int) j_int(c, "to", 0)); K->in_api = 0; return r; }
-  if (!strcmp(fn, "terminate")) { K->in_api = 1; r = reproc_terminate(p); K->in_api = 0; return r; }
-  if (!strcmp(fn, "kill")) { K->in_api = 1; r = reproc_kill(p); K->in_api = 0; return r; }
-  if (!strcmp(fn, "stop")) { reproc_stop_actions s = mk_stop(j_get(c, "a")); K->in_api = 1; r = reproc_stop(p, s); K->in_api = 0; return r; }
+  if (!strcmp(fn, "wait")) { K->in_api = 1; r = opt_cxx ? cxx_wait(p, (int) j_int(c, "to", 0)) : reproc_wait(p, (int) j_int(c, "to", 0)); K->in_api = 0; return r; }
+  if (!strcmp(fn, "terminate")) { K->in_api = 1; r = opt_cxx ? cxx_terminate(p) : reproc_terminate(p); K->in_api = 0; return r; }
+  if (!strcmp(fn, "kill")) { K->in_api = 1; r = opt_cxx ? cxx_kill(p) : reproc_kill(p); K->in_api = 0; return r; }
+  if (!strcmp(fn, "stop")) { reproc_stop_actions s = mk_stop(j_get(c, "a")); K->in_api = 1; r = opt_cxx ? cxx_stop(p, s) : reproc_stop(p, s); K->in_api = 0; return r; }
   if (!strcmp(fn, "destroy")) {
-    K->in_api = 1; reproc_t *q = reproc_destroy(p); K->in_api = 0;
+    reproc_t *q = NULL;
+    K->in_api = 1; if (opt_cxx) { if (p) cxx_destroy(p); } else q = reproc_destroy(p); K->in_api = 0;
     if (h > 0 && h < MAXH) H[h] = NULL;
     return q == NULL ? 0 : 1;
   }
-  if (!strcmp(fn, "close")) { K->in_api = 1; r = reproc_close(p, (REPROC_STREAM) j_int(c, "s", 0)); K->in_api = 0; return r; }
+  if (!strcmp(fn, "close")) { K->in_api = 1; r = opt_cxx ? cxx_close(p, (int) j_int(c, "s", 0)) : reproc_close(p, (REPROC_STREAM) j_int(c, "s", 0)); K->in_api = 0; return r; }
   if (!strcmp(fn, "read")) {
     long n = j_int(c, "n", 1);
     int nullbuf = (int) j_int(c, "nullbuf", 0);
     uint8_t *buf = nullbuf ? NULL : malloc(n > 0 ? (size_t) n : 1);
-    K->in_api = 1; r = reproc_read(p, (REPROC_STREAM) j_int(c, "s", 1), buf, (size_t) n); K->in_api = 0;
+    K->in_api = 1; r = opt_cxx ? cxx_read(p, (int) j_int(c, "s", 1), buf, (size_t) n) : reproc_read(p, (REPROC_STREAM) j_int(c, "s", 1), buf, (size_t) n); K->in_api = 0;
     jv *x = j_mkobj();
     j_put(x, "runs", r > 0 ? decode_runs(h, buf, r) : j_mkarr());
     j_put(x, "bad", j_mkint(rbad || r > n));
@@ -713,7 +753,7 @@ static long do_call(jv *c, jv **extra)
     long n = j_int(c, "n", 1);
     int nullbuf = (int) j_int(c, "nullbuf", 0);
     uint8_t *buf = nullbuf ? NULL : pattern_buf(0, woff[h], (size_t) n);
-    K->in_api = 1; r = reproc_write(p, buf, (size_t) n); K->in_api = 0;
+    K->in_api = 1; r = opt_cxx ? cxx_write(p, buf, (size_t) n) : reproc_write(p, buf, (size_t) n); K->in_api = 0;
     if (r > 0) woff[h] += r;
     free(buf);
     return r;
@@ -729,7 +769,15 @@ static long do_call(jv *c, jv **extra)
       es[i].interests = (int) src->a[i]->a[1]->i;
       es[i].events = 0x5a5a;
     }
+    if (opt_cxx) {
+      /* reproc++ polls one process through process::poll; there is no NULL source and no NULL array */
+      if (n != 1 || nullsrc || !es[0].process) skip_script("poll form without a C++ counterpart");
+      int ev = 0;
+      K->in_api = 1; r = cxx_poll1(es[0].process, es[0].interests, (int) j_int(c, "to", 0), &ev); K->in_api = 0;
+      if (r >= 0) es[0].events = ev;
+    } else {
     K->in_api = 1; r = reproc_poll(nullsrc ? NULL : es, (size_t) n, (int) j_int(c, "to", 0)); K->in_api = 0;
+    }
     jv *x = j_mkobj(), *ev = j_mkarr();
     for (int i = 0; i < n; i++) j_push(ev, j_mkint(es[i].events == 0x5a5a ? -1 : es[i].events));
     j_put(x, "ev", ev);
@@ -747,14 +795,14 @@ static long do_call(jv *c, jv **extra)
     int same = (int) j_int(c, "samestr", 0);
     if (same) err = out;
     if (fn[0] == 'd') {
-      K->in_api = 1; r = reproc_drain(p, out, err); K->in_api = 0;
+      K->in_api = 1; r = opt_cxx ? cxx_drain(p, out, err) : reproc_drain(p, out, err); K->in_api = 0;
     } else {
       uint8_t *inbuf;
       reproc_options op = mk_options(j_get(c, "o"), h, &inbuf);
       const char **argv = strarr(j_get(c, "argv"));
       sink_h = h;
       pending_term[h] = (int) j_int(c, "term", TERM_IGN);
-      K->in_api = 1; r = reproc_run_ex(argv, op, out, err); K->in_api = 0;
+      K->in_api = 1; r = opt_cxx ? cxx_run(argv, op, out, err) : reproc_run_ex(argv, op, out, err); K->in_api = 0;
       free(inbuf); free(argv);
     }
     jv *x = j_mkobj();
@@ -888,6 +936,14 @@ static void setup(jv *cfg)
   K->now = (int) j_int(cfg, "t0", 0);
   memset(H, 0, sizeof H); memset(Hpid, 0, sizeof Hpid);
   memset(woff, 0, sizeof woff); memset(coff, 0, sizeof coff); memset(roff, 0, sizeof roff);
+}
+
+static void skip_script(const char *why)
+{
+  jv *v = verdict_base(1);
+  j_put(v, "skipped", j_mkstr(why));
+  emit(v);
+  __real__exit(10);
 }
 
 /* ---------- C20: two (or more) API call sequences interleaved at system-call granularity ----------
@@ -1267,6 +1323,7 @@ int main(int argc, char **argv)
   for (int i = 1; i < argc; i++) {
     if (!strcmp(argv[i], "--trace")) opt_trace = 1;
     else if (!strcmp(argv[i], "--nofork")) opt_nofork = 1;
+    else if (!strcmp(argv[i], "--cxx")) opt_cxx = 1;
   }
   signal(SIGPIPE, SIG_IGN);
   progress = mmap(NULL, 4096, PROT_READ | PROT_WRITE, MAP_SHARED | MAP_ANONYMOUS, -1, 0);
